@@ -213,6 +213,9 @@ def check_case(cell, bundle, ctx):
 def _kwvalue(be, mp_, val, n, as_array):
     if _single(be) or not as_array:
         return mpf(val) if mp_ else val
+    if as_array == "shallow" and be == "awkward" and n > 1:
+        # one value per list (e.g. per event), broadcast to the vectors inside it; the lists hold n-1, 0 and 1 vectors
+        return ak.Array([val, val + 0.125, val + 0.25])
     arr = numpy.full(n, val) + numpy.arange(n) * 0.125
     if be == "awkward":
         return ak.unflatten(ak.Array(arr), [n - 1, 0, 1]) if n > 1 else ak.Array(arr)
@@ -222,6 +225,8 @@ def _kwvalue(be, mp_, val, n, as_array):
 def _kw_elem(val, i, n, as_array, be):
     if _single(be) or not as_array:
         return val
+    if as_array == "shallow" and be == "awkward" and n > 1:
+        return float(val) if i < n - 1 else float(val + 0.25)
     return float(val + i * 0.125)
 
 
@@ -236,6 +241,8 @@ def _check_to(cell, ctx, fail, v, idx, subs, rows, exact, be, mp_, mom, tol, sa,
     kwargs, imputed = {}, {}
     n = len(idx)
     as_array = (zlib.crc32(cell["id"].encode()) % 2 == 0)
+    if as_array and be == "awkward" and (zlib.crc32(cell["id"].encode()) >> 7) % 2:
+        as_array = "shallow"
     use_kw = (zlib.crc32(cell["id"].encode()) >> 3) % 3 != 0
     if td >= 3 and d < 3:
         lname = target[1]
@@ -294,7 +301,7 @@ def _check_to(cell, ctx, fail, v, idx, subs, rows, exact, be, mp_, mom, tol, sa,
         # (6) imputed coordinates hold exactly the keyword value / 0
         for cname, (how, val) in imputed.items():
             pos = names.index(cname)
-            want = _kw_elem(val, j, len(idx), as_array and how == "kw", be)
+            want = _kw_elem(val, j, len(idx), as_array if how == "kw" else False, be)
             if float(got[pos]) != float(want):
                 fail("imputed", f"imputed {cname} is {got[pos]!r}, keyword value was {want!r} ({how})")
                 return
@@ -342,6 +349,8 @@ def _check_dim(cell, ctx, fail, v, idx, subs, rows, exact, be, mp_, mom, tol, sa
     n = len(idx)
     h = zlib.crc32(cell["id"].encode())
     as_array = h % 2 == 0
+    if as_array and be == "awkward" and (h >> 7) % 2:
+        as_array = "shallow"
     if m == "like" and other_dim is None:
         # every target dimension; the other vector in a generated stored system, flavor and backend - like() takes the
         # dimension from it and nothing else (imputed coordinates are z = 0, t = 0 whatever the other vector stores)
